@@ -1075,6 +1075,85 @@ def fam_c17_shapes(rng):
     return out
 
 
+# a private function with every legal qualifier combination, then two visible functions, then an item that ends in `;`: a private
+# function is not a method however it is qualified, and what follows it is still found
+def fam_private_qualified(rng):
+    out = []
+    f = "pub fn f(d: &impl A, a: i32) -> i32 { a }"
+    g = "pub(crate) async fn g<D: B>(d: &D) {}"
+    for const in ("", "const "):
+        for asy in ("", "async "):
+            for uns in ("", "unsafe "):
+                for ext in ("", "extern ", "extern \"C\" "):
+                    q = const + asy + uns + ext
+                    if not q:
+                        continue
+                    p = "%sfn helper(x: u8) -> u8 { x }" % q
+                    for tail in ("pub static NAME: &str = \"n\";", "use core::fmt;", "struct Unit;"):
+                        out.append(Case("private_qualified", "Foo", "mod m {\n%s\n%s\n%s\n%s\n}" % (p, f, g, tail), tags={"expected_methods": ["f", "g"]}))
+                    out.append(Case("private_qualified", "Foo", "mod m {\n%s\n%s\n%s\n}" % (f, p, g), tags={"expected_methods": ["f", "g"]}))
+    return out
+
+
+# a binding with an `@` subpattern at every depth of a parameter pattern, alone and next to a second binding, in every context
+def fam_c16_subpat(rng):
+    out = []
+    pats = [("v @ _", "i32"), ("v @ N(_)", "N"), ("N(v @ _)", "N"), ("N(ref v @ _)", "N"), ("N(mut v @ 1..=5)", "N"), ("(v @ _, _)", "(i32, i32)"),
+            ("S { x: v @ _, .. }", "S"), ("&(v @ _)", "&i32"), ("N2(v @ _, w @ _)", "N2"), ("N2(N(v @ N(_)), _)", "N2"), ("(v @ (_, _), _)", "((i32, i32), i32)"),
+            ("[v @ .., _]", "[i32; 2]"), ("foo @ _", "i32"), ("N(foo @ _)", "N"), ("N(r#type @ _)", "N"), ("N(arg1 @ _)", "N")]
+    for pat, ty in pats:
+        for pre in ("", "a: i32, ", "_: i32, "):
+            out.append(Case("c16_subpat", "Foo", "fn foo(deps: &impl A, %s%s: %s) {}" % (pre, pat, ty)))
+        out.append(Case("c16_subpat", "Foo, no_deps", "fn foo(%s: %s, z: u8) {}" % (pat, ty)))
+        out.append(Case("c16_subpat", "Foo", "mod m { pub fn foo(deps: &impl A, %s: %s) {} pub fn bar(deps: &impl A, q: i32, %s: %s) {} }" % (pat, ty, pat, ty)))
+        out.append(Case("c16_subpat", rng.choice(["", "ref"]), "impl FooImpl for MyType { fn foo<D>(deps: &D, %s: %s, __impl: i32) {} }" % (pat, ty)))
+    return out
+
+
+# the same attribute written twice (doc lines, lints, cfgs) on every kind of item: each occurrence is the user's
+DUP_ATTRS = ["/// same line\n/// same line", "///\n/// text\n///", "#[allow(unused)]\n#[allow(unused)]", "/// a\n#[doc = \" a\"]",
+             "#[cfg(all())]\n#[cfg(all())]", "#[inline]\n/// d\n#[inline]", "/// x\n#[allow(unused)]\n/// x\n#[allow(unused)]"]
+
+
+def fam_dup_attrs(rng):
+    out = []
+    for da in DUP_ATTRS:
+        out.append(Case("dup_attrs", "Foo", "%s\nfn foo(deps: &impl A) {}" % da))
+        out.append(Case("dup_attrs", "Foo", "%s\nfn foo(deps: &App) {}" % da))
+        out.append(Case("dup_attrs", "Foo", "%s\nmod m { %s\npub fn foo(deps: &impl A) {} }" % (da, da)))
+        for attr in ("", "delegate_by = ref", "FooImpl, delegate_by = Deleg", "FooImpl, delegate_by = ref", "mock_api = M, unimock"):
+            out.append(Case("dup_attrs", attr, "%s\npub trait T { %s\nfn f(&self); %s\nasync fn g(&self, a: i32) -> i32; }" % (da, da, da)))
+        out.append(Case("dup_attrs", rng.choice(["", "ref"]), "%s\nimpl FooImpl for MyType { %s\nfn foo<D>(deps: &D) {} }" % (da, da)))
+    # two different sub-attributes on one item, in both orders
+    for a, b in (("#[async_trait]", "#[automock]"), ("#[async_trait::async_trait]", "#[mockall::automock]"), ("#[::async_trait::async_trait(?Send)]", "#[my::automock]")):
+        for x, y in ((a, b), (b, a)):
+            for tgt, attr, item in SUB_ITEMS:
+                out.append(Case("dup_attrs", attr, "%s\n%s\n%s" % (x, y, item)))
+    return out
+
+
+# every spelling of a visibility in front of the trait name, on functions and on modules
+VIS_SPELLINGS = ["", "pub", "pub(crate)", "pub(self)", "pub(in self)", "pub(super)", "pub(in super)", "pub(in self::super)", "pub(in super::super)",
+                 "pub(in crate)", "pub(in crate::a)", "pub(in crate::a::b)", "pub(in super::a)", "pub(in self::a)", "pub(in super::super::a::b)",
+                 "pub(in self::super::a)", "pub(in super::self)", "pub(in a)", "pub(in ::a)", "pub(in crate::r#type)", "pub(in super::r#mod)", "pub ( crate )", "pub(in\nsuper)"]
+
+
+def fam_vis_exhaustive(rng):
+    out = []
+    for v in VIS_SPELLINGS:
+        head = (v + " " if v else "") + "Foo"
+        for attr in (head, head + ", mock_api = M, unimock", head + ", export, mockall"):
+            out.append(Case("vis_exhaustive", attr, "fn foo(deps: &impl A) {}"))
+            out.append(Case("vis_exhaustive", attr, "mod m { pub fn foo(deps: &impl A) {} }"))
+            out.append(Case("vis_exhaustive", attr, "pub(crate) mod m { pub(crate) fn foo(deps: &impl A) {} pub fn bar<D>(d: &D) {} }"))
+        out.append(Case("vis_exhaustive", head, "fn foo(deps: &App) {}"))
+        out.append(Case("vis_exhaustive", head, "fn foo(deps: &impl A) {}", macro="entrait_export"))
+        out.append(Case("vis_exhaustive", head + ", mockall", "mod m { pub fn foo(deps: &impl A) {} }", macro="entrait_export"))
+        out.append(Case("vis_exhaustive", (v + " " if v else "") + "FooImpl, delegate_by = ref", "pub trait T { fn f(&self); }"))
+        out.append(Case("vis_exhaustive", (v + " " if v else "") + "FooImpl, delegate_by = Deleg", "trait T { fn f(&self); }"))
+    return out
+
+
 def build_corpus(seed, tier):
     rng = random.Random(seed)
     thorough = tier == "thorough"
@@ -1101,6 +1180,10 @@ def build_corpus(seed, tier):
     cases += fam_where_exhaustive(rng)
     cases += fam_nested_entrait(rng)
     cases += fam_c17_shapes(rng)
+    cases += fam_private_qualified(rng)
+    cases += fam_c16_subpat(rng)
+    cases += fam_dup_attrs(rng)
+    cases += fam_vis_exhaustive(rng)
     for i, c in enumerate(cases):
         c.cid = i
     return cases
